@@ -169,7 +169,7 @@ class Sim:
                 if sim.kind == "waveshare":
                     raise io_.serial_asyncio.serial.SerialException("could not open port: No such file or directory")
                 raise OSError(113, "No route to host")
-            reader = asyncio.StreamReader()
+            reader = asyncio.StreamReader(**({"limit": kw["limit"]} if "limit" in kw else {}))      # as open_connection does
             conn = len(sim.conns) + 1
             for meth in ("readexactly", "readline"):
                 def wrap(orig, conn=conn):
